@@ -509,14 +509,18 @@ func (c *resultCodec) Decode(source io.Reader, version primitive.ProtocolVersion
 		} else if rows.Metadata.ColumnCount < 0 {
 			return nil, fmt.Errorf("invalid RESULT Rows metadata column count: %d", rows.Metadata.ColumnCount)
 		}
-		rows.Data = make(RowSet, rowsCount)
+		// the counts come from the wire: allocate as the data actually arrives
+		rows.Data = make(RowSet, 0, primitive.BoundedCapacity(rowsCount))
 		for i := 0; i < int(rowsCount); i++ {
-			rows.Data[i] = make(Row, rows.Metadata.ColumnCount)
+			row := make(Row, 0, primitive.BoundedCapacity(rows.Metadata.ColumnCount))
 			for j := 0; j < int(rows.Metadata.ColumnCount); j++ {
-				if rows.Data[i][j], err = primitive.ReadBytes(source); err != nil {
+				if col, err := primitive.ReadBytes(source); err != nil {
 					return nil, fmt.Errorf("cannot read RESULT Rows data row %d col %d: %w", i, j, err)
+				} else {
+					row = append(row, col)
 				}
 			}
+			rows.Data = append(rows.Data, row)
 		}
 		return rows, nil
 	default:
